@@ -182,6 +182,62 @@ def harmless(case, impl, model):
     return all(a[k] == "-" or a[k] == full[k] for k in (1, 2, 3, 4))
 
 
+def kernel_crosscheck(ctx, limit=80):
+    """a sample of the `snf i32` (Z_dict, no preprocessing) and `snf big` (Zpre_dict with the LLL-HNF model as
+    preprocessing) cases evaluated by vm_compute inside coqc on Model/Snf.v / Model/Lll.v must give exactly the
+    D, P, P^-1, Q, Q^-1, rank and factors the EXTRACTED runner printed"""
+    import os
+    out = os.path.join(ctx.work, "corr")
+    try:
+        cases = open(os.path.join(out, "cases.txt")).read().splitlines()
+        model = open(os.path.join(out, "model.txt")).read().splitlines()
+    except OSError:
+        return {}, []
+    z = lambda x: "(%d)%%Z" % int(x)
+
+    def mat(m, n, ents):
+        rows = [ents[i * n:(i + 1) * n] for i in range(m)]
+        return "(mk_dmat %d %d [%s])" % (m, n, "; ".join("[" + "; ".join(z(x) for x in r) + "]" for r in rows))
+
+    def pmat(sx):
+        sx = sx.strip()
+        if sx == "-":
+            return "None"
+        dims, body = sx.split(":", 1)
+        m, n = [int(x) for x in dims.split("x")]
+        ents = [x for r in body.split(";") for x in r.split(",") if x != ""] if body else []
+        return "(Some %s)" % mat(m, n, ents)
+
+    ex = []
+    for ring, dic, lim in (("i32", "Z_dict", limit // 2), ("big", "(Zpre_dict (Some zpre))", limit - limit // 2)):
+        sel = [(c.split(), mm) for c, mm in zip(cases, model)
+               if c.startswith("snf %s " % ring) and len(c.split()) <= 5 + 25 and "DONLY" not in mm]
+        step = max(1, len(sel) // lim)
+        for t, mm in sel[::step][:lim]:
+            try:
+                m, n = int(t[3]), int(t[4])
+                fl = "(%s, %s, %s, %s)" % tuple("true" if ch == "1" else "false" for ch in t[2])
+                lhs = ("match snf %s %s %s with None => None | Some r => Some (sr_d r, sr_p r, sr_pinv r, sr_q r, "
+                       "sr_qinv r, snf_rank %s r, snf_factors %s r) end" % (dic, mat(m, n, t[5:]), fl, dic, dic))
+                if mm == "P":
+                    rhs = "None"
+                else:
+                    f = mm.split(" | ")
+                    if len(f) == 6:
+                        f.append("")
+                    f[6] = f[6].strip()
+                    facs = "[" + "; ".join(z(x) for x in f[6].split(",") if x != "") + "]"
+                    rhs = "Some (%s, %s, %s, %s, %s, %d, %s)" % (pmat(f[0])[6:-1], pmat(f[1]), pmat(f[2]), pmat(f[3]),
+                                                                 pmat(f[4]), int(f[5]), facs)
+            except (ValueError, IndexError):
+                continue
+            ex.append((lhs, rhs))
+    pre = ["From Coq Require Import List ZArith NArith Arith.", "Require Import Yui.Base.Ring Yui.Model.Snf Yui.Model.Lll.",
+           "Import ListNotations.",
+           "Definition zpre : preproc Z := fun _ _ f1 f2 A => lll_hnf Z_lll A (f1, f2) (N.to_nat 1000000)."]
+    return C.kernel_examples(ctx, pre, ex, timeout=900)
+
+
 def run(ctx):
     ctx.equal = equal
     obl = C.coq_obligations(ctx.pid, ["Extract/ExtractC09.vo"], more_props=["C09Unique", "C09UniqueMinors"])
@@ -191,6 +247,12 @@ def run(ctx):
     corr = C.correspondence(ctx, "c09", nontrivial)
     viol, stats = scan(ctx)
     extra["c09_stats"] = stats
+    if corr.get("ok"):
+        info, probs = kernel_crosscheck(ctx)
+        extra.update(info)
+        if probs:
+            obl["problems"] = obl.get("problems", []) + probs
+            obl["ok"] = False
     load_full_runs(ctx)
     prioritise(corr)
     return C.finish(ctx, "proof", obl, corr, RULE, extra_cov=extra, assumptions=ASSUME, extra_violations=viol,
